@@ -43,3 +43,51 @@ Section TieGadgets.
     unfold elligator_gen, elligator_g. cbv zeta. rewrite !isqrt_gen_sat. cbn [fst snd andb]. reflexivity.
   Qed.
 End TieGadgets.
+
+(* ---- the dependency: ark-r1cs-std AffineVar (twisted Edwards) addition and doubling, translated from the registry sources of the
+   version pinned by Cargo.lock, ARE the arithmetic of Model/Wrapper.v: same output values, and the constraints they add are satisfied
+   exactly when the two denominators are invertible (which Proofs/EdwardsLaw.v shows for points on the curve) ---- *)
+From D377 Require Import Model.Wrapper.
+Section TieAffineVar.
+  Context {AF : AField}.
+  Add Field Ftieav : Ffield.
+  Variables (cA cD : F).
+  Local Notation "0" := zero. Local Notation "1" := one.
+  Local Infix "+" := add. Local Infix "*" := mul. Local Infix "-" := sub.
+  Local Notation "- x" := (opp x).
+
+  Lemma tav_inv_mul x : x <> 0 -> inv x * x = 1.
+  Proof. destruct Ffield as [_ _ _ H]. exact (H x). Qed.
+
+  Theorem affinevar_add_values p q :
+    snd (affinevar_add_gen cA cD (aX p) (aY p) (aX q) (aY q)) = (aX (gadd cA cD p q), aY (gadd cA cD p q)).
+  Proof. unfold affinevar_add_gen, gadd. cbv zeta. cbn [fst snd aX aY]. f_equal; f_equal; ring. Qed.
+
+  Theorem affinevar_add_sat p q :
+    let v2 := aY q * aX p * (aX q * aY p) * cD in
+    1 + v2 <> 0 -> 1 - v2 <> 0 -> fst (affinevar_add_gen cA cD (aX p) (aY p) (aX q) (aY q)) = true.
+  Proof.
+    intros v2 H1 H2. unfold affinevar_add_gen. cbv zeta. cbn [fst snd andb].
+    fold v2.
+    assert (E1 : feqb (1 + v2) 0 = false) by (apply feqb_false; exact H1).
+    assert (E2 : feqb (1 - v2) 0 = false) by (apply feqb_false; exact H2).
+    rewrite E1, E2. cbn [negb andb].
+    rewrite (proj2 (feqb_true _ _)); [rewrite (proj2 (feqb_true _ _)); [reflexivity|]|].
+    - transitivity ((aX p * - cA + aY p) * (aX q + aY q) + aY q * aX p * cA - aX q * aY p) ; [|reflexivity].
+      transitivity (((aX p * - cA + aY p) * (aX q + aY q) + cA * (aY q * aX p) - aX q * aY p) * (inv (1 - v2) * (1 - v2))); [ring|].
+      rewrite (tav_inv_mul _ H2). ring.
+    - transitivity ((aY q * aX p + aX q * aY p) * (inv (1 + v2) * (1 + v2))); [ring|]. rewrite (tav_inv_mul _ H1). ring.
+  Qed.
+
+  (* the same with the denominators in the form used by Proofs/EdwardsLaw.v (denoms_nonzero) *)
+  Theorem affinevar_add_sat' p q :
+    1 + cD * aX p * aY p * aX q * aY q <> 0 -> 1 - cD * aX p * aY p * aX q * aY q <> 0 ->
+    fst (affinevar_add_gen cA cD (aX p) (aY p) (aX q) (aY q)) = true.
+  Proof.
+    intros H1 H2. apply affinevar_add_sat; intro E; [apply H1|apply H2]; rewrite <- E; ring.
+  Qed.
+
+  Theorem affinevar_double_values p :
+    snd (affinevar_double_gen cA (aX p) (aY p)) = (aX (gdbl cA p), aY (gdbl cA p)).
+  Proof. unfold affinevar_double_gen, gdbl. cbv zeta. cbn [fst snd aX aY]. f_equal; (f_equal; [ring | f_equal; ring]). Qed.
+End TieAffineVar.
